@@ -203,7 +203,38 @@ def r4_status_matching(chk: Check) -> None:
     # the matcher created for an operation uses the link's own status code and all documented codes
     csm = P.func(f"{STATEFUL}:create_state_machine")
     t = unparse(csm.node, 100000)
-    chk.expect("make_response_filter(link.status_code, all_status_codes)" in t and "all_status_codes = tuple(operation.definition.raw['responses'])" in t, "C10.R4", csm, "filter built from the link's response key and the operation's documented codes", "filter inputs changed", csm.loc())
+    # def-use: the `all codes` argument of make_response_filter must be every documented response key of the operation
+    mrfc = [c for c in body_calls(csm) if last_attr(c) == "make_response_filter"]
+    if not mrfc:
+        chk.violation("C10.R4", csm, "make_response_filter(link status, all documented codes)", "bundles are filled without a status filter: links are followed from any response", csm.loc())
+    for c in mrfc:
+        construct = "make_response_filter(<status>, <all documented response keys>)"
+        if len(c.args) < 2:
+            chk.undecided("C10.R4", csm, construct, "unexpected arity", csm.loc(c))
+            continue
+        a1 = c.args[1]
+        srcs = [a1] if not isinstance(a1, ast.Name) else [v for _, v in assignments_to(csm.node, a1.id) if v is not None]
+        def full_keys(v: ast.expr) -> bool | None:
+            t_ = unparse(v, 300)
+            if "['responses']" not in t_ and '["responses"]' not in t_:
+                # derived from something else (links / transitions / a filtered subset)
+                return False if any(w in t_ for w in ("outgoing", "link", "transitions", "status_code")) else None
+            if isinstance(v, (ast.ListComp, ast.GeneratorExp, ast.SetComp)) and any(g_.ifs for g_ in v.generators):
+                return False
+            if isinstance(v, ast.Call) and v.args and isinstance(v.args[0], (ast.ListComp, ast.GeneratorExp)) and any(g_.ifs for g_ in v.args[0].generators):
+                return False
+            return True
+        verdicts = [full_keys(v) for v in srcs]
+        if verdicts and all(x is True for x in verdicts):
+            chk.ok("C10.R4", csm, construct, unparse(srcs[0], 60), csm.loc(c))
+        elif any(x is False for x in verdicts):
+            chk.violation("C10.R4", csm, construct,
+                          f"the set of 'other documented codes' is `{unparse(srcs[0], 70)}`, not every documented response key: a `default` link is then followed from a documented response that merely has no links of its own",
+                          csm.loc(c))
+        else:
+            chk.undecided("C10.R4", csm, construct, "origin of the documented codes not recognised", csm.loc(c))
+        a0 = unparse(c.args[0])
+        chk.expect(a0.endswith("status_code"), "C10.R4", csm, "filter keyed by the link's own response key", f"first argument is `{a0}`", csm.loc(c))
     chk.expect("bundles[bundle_name].flatmap(into_step_input(target=target, link=link" in t.replace("\n", ""), "C10.R4", csm, "a link is followed only from its own bundle", "links draw sources from another bundle", csm.loc())
 
 
